@@ -7,7 +7,7 @@ import ast
 from ..affine import Lin
 from ..cfg import cfg_of
 from ..model import AnalysisError, dotted, norm, walk_own
-from .common import assigned_names, def_nodes, find_calls, guards_of, key_of, mentions
+from .common import assigned_names, def_nodes, find_calls, guards_of, key_of, mentions, order_fact
 
 EXPLANATION = (
     "Static decision of the two things that make an incremental parser independent of read boundaries. (R1) carry "
@@ -345,7 +345,7 @@ def rule_r2_receivers(ctx, rid="C02.R2b"):
                 elif isinstance(cut, ast.Name):
                     cd = ex.reaching_defs(cut.id, r)
                     cut_ok = len(cd) == 1 and isinstance(cd[0].ast, ast.Assign) and isinstance(cd[0].ast.value, ast.Call) and (dotted(cd[0].ast.value.func) or "").endswith("find_double_newline") \
-                        and dotted(cd[0].ast.value.args[0]) == j and any((not pol) and isinstance(t, ast.Compare) and isinstance(t.ops[0], ast.Lt) and dotted(t.left) == cut.id for (t, pol) in guards_of(g, r))
+                        and dotted(cd[0].ast.value.args[0]) == j and any(order_fact(t, pol, ">=", lambda x: dotted(x) == cut.id, lambda x: isinstance(x, ast.Constant) and x.value == 0) for (t, pol) in guards_of(g, r))
                 ok = joined and cut_ok
         if ok:
             ctx.r.ok(rid, "chunked receiver exit %s = orig - (len(carry + rest) - cut)" % norm(v), f.loc(r.ast))
@@ -610,7 +610,17 @@ def rule_r3(ctx, rid="C02.R3"):
             else:
                 ctx.r.violation(rid, key_of(f, None, "header-size-accumulated-at-end"), "when the head ends the header size is %s: it depends on how many bytes were carried from earlier reads" % norm(n.ast), f.loc(n.ast))
         elif found is False:
-            if isinstance(n.ast, ast.AugAssign) and isinstance(n.ast.op, ast.Add) and norm(n.ast.value) in ("datalen", "len(%s)" % f.params[1]):
+            inc = None
+            if isinstance(n.ast, ast.AugAssign) and isinstance(n.ast.op, ast.Add):
+                inc = n.ast.value
+            elif isinstance(n.ast, ast.Assign) and len(n.ast.targets) == 1 and isinstance(n.ast.value, ast.BinOp) and isinstance(n.ast.value.op, ast.Add):
+                # x = x + d  (or d + x): the same accumulation for integers
+                tgt = norm(n.ast.targets[0])
+                if norm(n.ast.value.left) == tgt:
+                    inc = n.ast.value.right
+                elif norm(n.ast.value.right) == tgt:
+                    inc = n.ast.value.left
+            if inc is not None and norm(inc) in ("datalen", "len(%s)" % f.params[1]):
                 ctx.r.ok(rid, "head unfinished: header size += len(data)", f.loc(n.ast))
             else:
                 ctx.r.violation(rid, key_of(f, None, "header-size-unfinished"), "with the head unfinished the header size is updated by %s" % norm(n.ast), f.loc(n.ast))
@@ -649,7 +659,7 @@ def rule_r4(ctx, rid="C02.R4"):
     okb = False
     for b in brk:
         for (t, pol) in guards_of(g, b):
-            if pol and isinstance(t, ast.Compare) and isinstance(t.ops[0], ast.GtE) and dotted(t.left) == nvar and norm(t.comparators[0]) == "len(%s)" % data:
+            if order_fact(t, pol, ">=", lambda x: dotted(x) == nvar, lambda x: norm(x) == "len(%s)" % data):
                 okb = True
     loops = [x for x in ast.walk(f.node) if isinstance(x, ast.While) and dotted(x.test) == data]
     if okb and loops:
@@ -692,6 +702,7 @@ RULES = [rule_r1, rule_r2_header, rule_r2_receivers, rule_r3, rule_r4, rule_r5, 
 from ..selftest import M, T, V  # noqa: E402
 
 selftest = [
+    M("consumed-clamped", "parser.py", "                consumed = datalen - (len(s) - index)", "                consumed = min(index, datalen)", "R2"),
     M("carry-ignored-in-count", "parser.py", "                consumed = datalen - (len(s) - index)", "                consumed = datalen - (len(data) - index)", "R2"),
     M("count-off-by-carry", "parser.py", "                consumed = datalen - (len(s) - index)", "                consumed = index", "R2"),
     M("control-line-not-reset", "receiver.py", "                    s = s[pos + 2 :]\n                    self.control_line = b\"\"\n", "                    s = s[pos + 2 :]\n", "R1"),
